@@ -1,7 +1,12 @@
 """C01 - each halo row indexes exactly its own subsample particles.
 
-Status: BOUNDED stand-in for the loader as a whole (astropy/asdf object code), plus deductive pieces shared with other
-checks: util.cumsum (C19 contract: new write offsets are prefix sums for every length incl. 0) and the bit decoders (C04).
+Deductive part (E1, real ASTs): the per-halo read/write zipper kernels _unpack_rv_subsamples / _unpack_pid_subsamples against the
+C01 postcondition - for every well-formed index table (read ranges inside the raw arrays, write offsets = running sums of
+original + merged lengths, which is the C19 cumsum contract), every halo h and every q: output row wo[h] + q is the decode (C04
+spec functions) of raw record ro[h] + q of the slab file, row wo[h] + len[h] + q the decode of record cro[h] + q of the cleaning file,
+rows outside [wo[0], wo[H]) untouched - for the widest output selections, cleaned on/off (all selections in the thorough tier);
+safety-only contracts for the rest.
+Bounded part: the loader as a whole (astropy/asdf object code: per-file association, A before B, index-column replacement).
 The run-time contract (written from the property statement) is evaluated on the real CompaSOHaloCatalog over synthetic
 catalogues whose raw arrays are the ground truth: for every halo row and loaded subsample the slice
 subsamples[npstart : npstart+npout] holds exactly the halo's own records (originals addressed by start/count in its own
@@ -116,11 +121,11 @@ def check(run):
     run.add_bounded('real CompaSOHaloCatalog on synthetic catalogues vs independent slice oracle', nev, ncat,
                     'superslab layouts incl. empty slabs / empty catalogue / non-contiguous slab numbers; L0 gaps, zero-particle halos, cleaned-away halos, merged ranges; cleaned on/off x A/B/both x rvint/packedpid/pos/vel/pid x unpack_bits x passthrough x directory / single file / file subsets',
                     samples)
-    run.extra['explanation'] = ('per-halo zipper kernels (_unpack_rv_subsamples, _unpack_pid_subsamples) under a deductive SAFETY contract on the real ASTs: every '
-                                'subscript / slice store in bounds, shapes agree and the decoder preconditions hold for every well-formed catalogue (write offsets = '
-                                'running sums, read ranges inside the slab arrays), all output selections, cleaned on/off; the FUNCTIONAL property (each slice holds the '
-                                'halo\'s own records) is decided only by the bounded run-time contract check on synthetic catalogues; new-offset arithmetic is the C19 '
-                                'cumsum contract')
+    run.extra['explanation'] = ('per-halo zipper kernels (_unpack_rv_subsamples, _unpack_pid_subsamples) proved on the real ASTs against the FUNCTIONAL contract '
+                                '(row wo[h]+q = decode of raw record ro[h]+q, merged records after the originals, nothing else written) for every well-formed index table, '
+                                'widest output selections, cleaned on/off; safety contracts for the other selections; new-offset arithmetic is the C19 cumsum contract; '
+                                'the object-code layer of the loader (which file, which halo rows, A before B, index columns) is decided only by the bounded '
+                                'run-time contract check on synthetic catalogues')
     run.assumptions += ['ASDF files written uncompressed (blosc stubbed); astropy/asdf object layer trusted',
                         'light-cone layout (_load_halo_lc_subsamples) not covered by this check']
 
@@ -166,100 +171,136 @@ CLEAN_WF = ['len(clean_slab_read_offsets) == len(slab_read_offsets)', 'len(clean
             'clean_slab_read_offsets[h] + clean_slab_read_lens[h] <= len({cslab}))']
 
 
-def spec_zipper_rv(outputs, cleaned, functional=False):
-    """outputs: subset of {'pos','vel','rvint'}.  functional=False: safety contract only (every subscript and slice store in
-    bounds, shapes agree, callee preconditions of the decoders hold) under the well-formedness precondition; functional=True adds
-    the per-halo zipper postcondition and the frame (two-variable quantified invariants: slow and solver-sensitive, used in the
-    thorough tier only and never required for the verdict)"""
-    args = dict(pos='real[:,3]' if 'pos' in outputs else None, vel='real[:,3]' if 'vel' in outputs else None,
-                rvint='i32[:,3]' if 'rvint' in outputs else None, slab_rvint='i32[:,3]!ro', slab_read_offsets='int[:]!ro',
-                slab_read_lens='int[:]!ro', slab_write_offsets='int[:]!ro', boxsize='real',
-                clean_slab_rvint='i32[:,3]!ro' if cleaned else None, clean_slab_read_offsets='int[:]!ro' if cleaned else None,
-                clean_slab_read_lens='int[:]!ro' if cleaned else None)
+# value of output column `o` for the particle stored in source row {r} of the raw array {slab} (column {c} for 3-vectors)
+VALUES = dict(
+    rv=dict(pos=(3, 'RVPOS({slab}[{r}, {c}], boxsize)'), vel=(3, 'RVVEL({slab}[{r}, {c}])'), rvint=(3, '{slab}[{r}, {c}]')),
+    pid=dict(pid=(0, 'PID({slab}[{r}])'), tagged=(0, 'TAG({slab}[{r}])'), density=(0, 'DENS({slab}[{r}])'),
+             lagr_pos=(3, 'LPOS{c}({slab}[{r}], boxsize, ppd)'), lagr_idx=(3, 'LIDX{c}({slab}[{r}])'), packedpid=(0, '{slab}[{r}]')))
+KINDS = dict(rv=dict(fn='_unpack_rv_subsamples', slab='slab_rvint', cslab='clean_slab_rvint', raw='i32[:,3]!ro', first='halo_rvint = ',
+                     second='if clean_slab_rvint is not None', callee={'..bitpacked._unpack_rvint': C04.RV_CALLEE},
+                     types=dict(pos='real[:,3]', vel='real[:,3]', rvint='i32[:,3]')),
+             pid=dict(fn='_unpack_pid_subsamples', slab='slab_packedpid', cslab='clean_slab_packedpid', raw='u64[:]!ro', first='halo_packedpid = ',
+                      second='if clean_slab_packedpid is not None', callee={'..bitpacked._unpack_pids': C04.PID_CALLEE},
+                      types=dict(pid='i64[:]', lagr_pos='real[:,3]', tagged='u8[:]', density='real[:]', lagr_idx='i16[:,3]', packedpid='u64[:]')))
+
+
+def spec_zipper(kind, outputs, cleaned, functional=False):
+    """The per-halo read/write zipper kernels under contract.
+
+    functional=False: safety only (every subscript and slice store in bounds, shapes agree, callee preconditions of the decoders
+    hold) under the well-formedness precondition (read ranges inside the raw arrays, write offsets = running sums of original +
+    merged lengths).  functional=True adds the C01 postcondition: for every halo h of the file and every q, output row
+    wo[h] + q (q < original count) is the decode of raw record ro[h] + q of the slab file, row wo[h] + len[h] + q is the decode of
+    record cro[h] + q of the cleaning file, and rows outside [wo[0], wo[H]) are untouched (other files' slices stay intact).
+    The two-variable invariant is re-established for a fresh (halo, row) pair in small steps (forall_intro), with the quantified
+    hypotheses instantiated at the fresh constants by the engine."""
+    K = KINDS[kind]
+    slab, cslab = K['slab'], K['cslab']
+    args = dict(slab_read_offsets='int[:]!ro', slab_read_lens='int[:]!ro', slab_write_offsets='int[:]!ro', boxsize='real',
+                clean_slab_read_offsets='int[:]!ro' if cleaned else None, clean_slab_read_lens='int[:]!ro' if cleaned else None)
+    args[slab] = K['raw']
+    args[cslab] = K['raw'] if cleaned else None
+    for o, t in K['types'].items():
+        args[o] = t if o in outputs else None
+    if kind == 'pid':
+        args['ppd'] = 'int'
     clen = 'clean_slab_read_lens[h]' if cleaned else '0'
-    req = [r.format(slab='slab_rvint', clen=clen) for r in WELLFORMED]
+    req = [r.format(slab=slab, clen=clen) for r in WELLFORMED] + (['ppd >= 1'] if kind == 'pid' else [])
     if cleaned:
-        req += [r.format(cslab='clean_slab_rvint') for r in CLEAN_WF]
+        req += [r.format(cslab=cslab) for r in CLEAN_WF]
     for o in sorted(outputs):
         req.append(f'slab_write_offsets[len(slab_read_offsets)] <= len({o})')
     H = 'len(slab_read_offsets)'
+    tag = f'[{"+".join(sorted(outputs))},cleaned={cleaned}]'
+    if not functional:
+        return FnSpec(CHC, 'CompaSOHaloCatalog.' + K['fn'], prop='C01', name=K['fn'] + '.safety' + tag, mode='bv', args=args, ghosts=C04.ghosts,
+                      requires=req, callees=K['callee'], loops={0: LoopSpec(invariant=['0 <= i and i <= ' + H])})
+
+    def cell(o, row, c):
+        return f'{o}[{row}, {c}]' if VALUES[kind][o][0] else f'{o}[{row}]'
 
     def rows(upto):
         cl = []
-        for c in range(3):
-            if 'pos' in outputs:
-                cl.append(f'forall((h, q), 0 <= h and h < {upto} and 0 <= q and q < slab_read_lens[h], '
-                          f'pos[slab_write_offsets[h] + q, {c}] == RVPOS(slab_rvint[slab_read_offsets[h] + q, {c}], boxsize))')
-            if 'vel' in outputs:
-                cl.append(f'forall((h, q), 0 <= h and h < {upto} and 0 <= q and q < slab_read_lens[h], '
-                          f'vel[slab_write_offsets[h] + q, {c}] == RVVEL(slab_rvint[slab_read_offsets[h] + q, {c}]))')
-            if 'rvint' in outputs:
-                cl.append(f'forall((h, q), 0 <= h and h < {upto} and 0 <= q and q < slab_read_lens[h], '
-                          f'rvint[slab_write_offsets[h] + q, {c}] == slab_rvint[slab_read_offsets[h] + q, {c}])')
-            if cleaned:
-                if 'pos' in outputs:
-                    cl.append(f'forall((h, q), 0 <= h and h < {upto} and 0 <= q and q < clean_slab_read_lens[h], '
-                              f'pos[slab_write_offsets[h] + slab_read_lens[h] + q, {c}] == RVPOS(clean_slab_rvint[clean_slab_read_offsets[h] + q, {c}], boxsize))')
-                if 'vel' in outputs:
-                    cl.append(f'forall((h, q), 0 <= h and h < {upto} and 0 <= q and q < clean_slab_read_lens[h], '
-                              f'vel[slab_write_offsets[h] + slab_read_lens[h] + q, {c}] == RVVEL(clean_slab_rvint[clean_slab_read_offsets[h] + q, {c}]))')
-                if 'rvint' in outputs:
-                    cl.append(f'forall((h, q), 0 <= h and h < {upto} and 0 <= q and q < clean_slab_read_lens[h], '
-                              f'rvint[slab_write_offsets[h] + slab_read_lens[h] + q, {c}] == clean_slab_rvint[clean_slab_read_offsets[h] + q, {c}])')
+        for o in sorted(outputs):
+            ncol, fmt = VALUES[kind][o]
+            for c in (range(3) if ncol else [0]):
+                cl.append(f'forall((h, q), 0 <= h and h < {upto} and 0 <= q and q < slab_read_lens[h], ' +
+                          cell(o, 'slab_write_offsets[h] + q', c) + ' == ' + fmt.format(slab=slab, r='slab_read_offsets[h] + q', c=c) + ')')
+                if cleaned:
+                    cl.append(f'forall((h, q), 0 <= h and h < {upto} and 0 <= q and q < clean_slab_read_lens[h], ' +
+                              cell(o, 'slab_write_offsets[h] + slab_read_lens[h] + q', c) + ' == ' +
+                              fmt.format(slab=cslab, r='clean_slab_read_offsets[h] + q', c=c) + ')')
         # frame: rows outside [wo[0], wo[upto]) keep their contents (other files' slices stay intact)
         for o in sorted(outputs):
-            cl.append(f'forall((r, c), 0 <= r and r < len({o}) and 0 <= c and c < 3 and (r < slab_write_offsets[0] or r >= slab_write_offsets[{upto}]), '
-                      f'{o}[r, c] == old({o}[r, c]))')
+            if VALUES[kind][o][0]:
+                cl.append(f'forall((r, c), 0 <= r and r < len({o}) and 0 <= c and c < 3 and (r < slab_write_offsets[0] or r >= slab_write_offsets[{upto}]), '
+                          f'{o}[r, c] == old({o}[r, c]))')
+            else:
+                cl.append(f'forall((r,), 0 <= r and r < len({o}) and (r < slab_write_offsets[0] or r >= slab_write_offsets[{upto}]), {o}[r] == old({o}[r]))')
         return cl
-    def per_halo_hints():
-        """the new halo's rows alone (one bound variable), proved from the callee contract before the two-variable invariant"""
+
+    def per_halo_hints(idx, second):
+        """the new halo's rows alone, each proved for a fresh row number q (skolem constant) from the callee contract and then
+        generalised; `second` selects the merged-particle segment"""
         out = []
         for cl in rows('i'):
             if not cl.startswith('forall((h, q)'):
                 continue
+            if ('clean_slab_read_lens[h],' in cl) != second:
+                continue
             body = cl[len('forall((h, q), 0 <= h and h < i and '):]
-            body = body.replace('[h]', '[i - 1]')
-            out.append('forall((q,), ' + body)
+            out.append('forall_intro forall((q,), ' + body.replace('[h]', f'[{idx}]'))
         return out
-    if not functional:
-        return FnSpec(CHC, 'CompaSOHaloCatalog._unpack_rv_subsamples', prop='C01',
-                      name=f'_unpack_rv_subsamples.safety[{"+".join(sorted(outputs))},cleaned={cleaned}]', mode='bv', args=args, ghosts=C04.ghosts,
-                      requires=req, callees={'..bitpacked._unpack_rvint': C04.RV_CALLEE},
-                      loops={0: LoopSpec(invariant=['0 <= i and i <= ' + H])})
-    return FnSpec(CHC, 'CompaSOHaloCatalog._unpack_rv_subsamples', prop='C01',
-                  name=f'_unpack_rv_subsamples[{"+".join(sorted(outputs))},cleaned={cleaned}]', mode='bv', args=args, ghosts=C04.ghosts,
-                  requires=req, ensures=rows(H), frame=sorted(outputs),
-                  callees={'..bitpacked._unpack_rvint': C04.RV_CALLEE},
-                  loops={0: LoopSpec(invariant=['0 <= i and i <= ' + H] + rows('i'), asserts=per_halo_hints())})
+    # intermediate steps about the fresh (h, q): the halo's write window and its position relative to the current halo's
+    steps = (f'slab_write_offsets[h + 1] == slab_write_offsets[h] + slab_read_lens[h] + {clen} ;; '
+             'implies(h < i - 1, slab_write_offsets[h + 1] <= slab_write_offsets[i - 1]) ;; slab_write_offsets[0] <= slab_write_offsets[h]')
 
+    def two_var(cl):
+        """a two-variable clause for a fresh (halo, row) pair, in small steps that each need one instantiation: the halo's write
+        window; an earlier halo's row held the value when the iteration started (instance of the assumed invariant) and was not
+        touched since (callee frames); the current halo's row is an instance of the per-halo hint"""
+        body = cl[cl.index('], ') + 3:-1]
+        lhs, rhs = body.split(' == ', 1)
+        return ('forall_intro ' + cl + ' using ' + steps + f' ;; inv_instance {cl} ;; implies(h < i - 1, iter_old({lhs}) == {rhs}) ;; '
+                f'implies(h < i - 1, {lhs} == iter_old({lhs})) ;; implies(h == i - 1, {lhs} == {rhs})')
 
-def spec_zipper_pid(outputs, cleaned):
-    """safety contract of _unpack_pid_subsamples; outputs: subset of {'pid','lagr_pos','tagged','density','lagr_idx','packedpid'}"""
-    types = dict(pid='i64[:]', lagr_pos='real[:,3]', tagged='u8[:]', density='real[:]', lagr_idx='i16[:,3]', packedpid='u64[:]')
-    args = dict(slab_packedpid='u64[:]!ro', slab_read_offsets='int[:]!ro', slab_read_lens='int[:]!ro', slab_write_offsets='int[:]!ro',
-                boxsize='real', ppd='int', clean_slab_packedpid='u64[:]!ro' if cleaned else None,
-                clean_slab_read_offsets='int[:]!ro' if cleaned else None, clean_slab_read_lens='int[:]!ro' if cleaned else None)
-    for o, t in types.items():
-        args[o] = t if o in outputs else None
-    clen = 'clean_slab_read_lens[h]' if cleaned else '0'
-    req = [r.format(slab='slab_packedpid', clen=clen) for r in WELLFORMED] + ['ppd >= 1']
+    # ground instances of the well-formedness precondition for the current halo: with them every slice bound is decided by the
+    # quantifier-free part of the path condition, so the views carry plain offsets instead of clamp expressions
+    ci = 'clean_slab_read_lens[i]' if cleaned else '0'
+    ground = [f'slab_write_offsets[i + 1] == slab_write_offsets[i] + slab_read_lens[i] + {ci}',
+              f'0 <= slab_write_offsets[0] and slab_write_offsets[0] <= slab_write_offsets[i] and slab_write_offsets[i + 1] <= slab_write_offsets[{H}]',
+              f'0 <= slab_read_offsets[i] and 0 <= slab_read_lens[i] and slab_read_offsets[i] + slab_read_lens[i] <= len({slab})']
     if cleaned:
-        req += [r.format(cslab='clean_slab_packedpid') for r in CLEAN_WF]
-    for o in sorted(outputs):
-        req.append(f'slab_write_offsets[len(slab_read_offsets)] <= len({o})')
-    return FnSpec(CHC, 'CompaSOHaloCatalog._unpack_pid_subsamples', prop='C01',
-                  name=f'_unpack_pid_subsamples.safety[{"+".join(sorted(outputs))},cleaned={cleaned}]', mode='bv', args=args, ghosts=C04.ghosts,
-                  requires=req, callees={'..bitpacked._unpack_pids': C04.PID_CALLEE},
-                  loops={0: LoopSpec(invariant=['0 <= i and i <= len(slab_read_offsets)'])})
+        ground.append(f'0 <= clean_slab_read_offsets[i] and 0 <= clean_slab_read_lens[i] and clean_slab_read_offsets[i] + clean_slab_read_lens[i] <= len({cslab})')
+    return FnSpec(CHC, 'CompaSOHaloCatalog.' + K['fn'], prop='C01', name=K['fn'] + tag, mode='bv', args=args, ghosts=C04.ghosts,
+                  requires=req, ensures=rows(H), frame=sorted(outputs), callees=K['callee'],
+                  loops={0: LoopSpec(invariant=['0 <= i and i <= ' + H] + rows('i'),
+                                     # original segment right after the first decoder call, then (end of body) again - the second call's
+                                     # frame is the merged segment only - followed by the merged segment
+                                     body_asserts={K['first']: ground, K['second']: per_halo_hints('i', False)},
+                                     asserts=per_halo_hints('i - 1', False) + (per_halo_hints('i - 1', True) if cleaned else []) +
+                                     [two_var(cl) for cl in rows('i') if cl.startswith('forall((h, q)')])})
+
+
+def spec_zipper_rv(outputs, cleaned, functional=False):
+    return spec_zipper('rv', outputs, cleaned, functional)
+
+
+def spec_zipper_pid(outputs, cleaned, functional=False):
+    return spec_zipper('pid', outputs, cleaned, functional)
 
 
 def zipper_specs(tier):
     out = []
+    rv_sets = ({'pos', 'vel'}, {'rvint'}, {'pos'}, {'vel', 'rvint', 'pos'})
+    pid_sets = ({'pid'}, {'packedpid'}, {'pid', 'lagr_pos', 'tagged', 'density', 'lagr_idx'}, {'pid', 'packedpid', 'lagr_idx'})
     for cleaned in (True, False):
-        for outs in ({'pos', 'vel'}, {'rvint'}, {'pos'}, {'vel', 'rvint', 'pos'}):
-            out.append(spec_zipper_rv(outs, cleaned))
-        for outs in ({'pid'}, {'packedpid'}, {'pid', 'lagr_pos', 'tagged', 'density', 'lagr_idx'}, {'pid', 'packedpid', 'lagr_idx'}):
-            out.append(spec_zipper_pid(outs, cleaned))
-    if tier == 'thorough':
-        out += [spec_zipper_rv({'rvint'}, False, functional=True), spec_zipper_rv({'pos'}, False, functional=True)]
+        # functional contract (C01 postcondition) on the widest output selections, plus the narrower ones in the thorough tier;
+        # safety-only contracts for the remaining selections
+        fun_rv = rv_sets if tier == 'thorough' else rv_sets[3:]
+        fun_pid = pid_sets if tier == 'thorough' else pid_sets[2:]
+        for outs in rv_sets:
+            out.append(spec_zipper_rv(outs, cleaned, functional=outs in fun_rv))
+        for outs in pid_sets:
+            out.append(spec_zipper_pid(outs, cleaned, functional=outs in fun_pid))
     return out
